@@ -71,7 +71,7 @@ theorem tadAt_of_find_none {pre : List (Rec × Int)} {p : Rec × Int}
     (h : pre.find? (fun q => q.1.id == p.1.id && q.2 == p.2) = none) : tadAt pre p = 0 := by
   simp [tadAt, h]
 
-theorem tad_nonneg (cfg : Cfg) (ds : List Rec) (hc : Chrono (expand cfg ds)) :
+theorem tad_nonneg_aux (cfg : Cfg) (ds : List Rec) (hc : Chrono (expand cfg ds)) :
     ∀ p ∈ addTad cfg ds, 0 ≤ p.2 := by
   intro p hp
   obtain ⟨x, hx, rfl⟩ := mem_addTad hp
@@ -208,7 +208,7 @@ theorem doseidAt_lt_of_dose (cfg : Cfg) (a1 a2 : List Rec) (x r : Rec) (post1 b 
   exact Int.lt_of_le_of_lt (doseidAt_le_cumOf cfg a1 x post1) hlt
 
 /-- `hamt` (non-negative amounts) of the planned statement is not needed. -/
-theorem tad_zero_at_dose (cfg : Cfg) (ds : List Rec) :
+theorem tad_zero_at_dose_aux (cfg : Cfg) (ds : List Rec) :
     ∀ p ∈ addTad cfg ds, isDose p.1 = true → p.2 = 0 := by
   intro p hp hd
   obtain ⟨x, hx, rfl⟩ := mem_addTad hp
